@@ -93,10 +93,21 @@ def strat_spool(tier):
     def case(draw):
         kind = draw(st.sampled_from(['bytes', 'text']))
         seps = draw(st.sampled_from([False, False, True])) if kind == 'text' else False
+        ops = draw(st.lists(_ops(kind, seps), max_size=n))
+        if draw(st.integers(0, 19)) == 0:
+            # scale class: more than 64 KiB / 128 KiB of (multi-byte) data in one write, buffered in memory, then rolled over
+            unit = draw(st.sampled_from([['\u20ac', '\xe9'], ['\u20ac', '\xe9'], ['a', '\u20ac', '\n'], ['\U0001f600', 'b']])) if kind == 'text' else \
+                draw(st.sampled_from([['a', 'b', '\n'], ['\xff', '\x00', 'c']]))
+            nbytes = draw(st.sampled_from([65535, 65536, 65537, 70001, 131073, 200003]))
+            ulen = len(''.join(unit).encode('utf-8')) if kind == 'text' else len(unit)
+            big = ['write', unit, 'end', nbytes // ulen + 1]
+            k = draw(st.integers(0, min(3, len(ops))))
+            ops = ops[:k] + [big] + draw(st.lists(st.sampled_from([['rollover'], ['rollover'], ['tell'], ['seek', 8], ['read', 5], ['getvalue']]).map(list),
+                                                  min_size=1, max_size=3)) + ops[k:][:6]
         return {'sub': 'spool', 'kind': kind, 'seps': seps,
                 # how much is observed after every step: observing (getvalue seeks and flushes) can mask defects
                 'observe': draw(st.sampled_from(['all', 'all', 'tell', 'none'])),
-                'ops': draw(st.lists(_ops(kind, seps), max_size=n))}
+                'ops': ops}
     return case()
 
 
@@ -113,9 +124,12 @@ def run_spool(case):
     out = Outcome()
     kind = case['kind']
     conv = (lambda pieces: j2b(''.join(pieces))) if kind == 'bytes' else (lambda pieces: ''.join(pieces))
-    total = sum(len(conv(op[1])) for op in case['ops'] if op[0] == 'write')
+    def wdata(op):
+        # ['write', pieces, how] or ['write', pieces, how, repetitions] (scale class: one write of tens of thousands of characters)
+        return conv(op[1]) * (op[3] if len(op) > 3 else 1)
+    total = sum(len(wdata(op)) for op in case['ops'] if op[0] == 'write')
     if kind == 'text':
-        total_b = sum(len(conv(op[1]).encode('utf-8')) for op in case['ops'] if op[0] == 'write')
+        total_b = sum(len(wdata(op).encode('utf-8')) for op in case['ops'] if op[0] == 'write')
     else:
         total_b = total
     sizes = sorted({1, 2, max(1, total_b // 2), max(1, total_b), total_b + 1, 10 ** 6})
@@ -140,7 +154,7 @@ def run_spool(case):
             compare_ret = True
             line_op = False
             if name == 'write':
-                data = conv(op[1])
+                data = wdata(op)
 
                 def do(f, data=data, how=op[2], n=len(model)):
                     if how == 'len':
@@ -247,6 +261,8 @@ def run_spool(case):
         if out.nontrivial:
             out.label('read_after_move_rolled_and_unrolled')
         out.label(kind)
+        if total_b > 65536:
+            out.label('single_write_over_64KiB')
         if case.get('seps'):
             out.label('text_with_other_separators')
         return out
@@ -266,6 +282,12 @@ def run_spool(case):
 # ---------------------------------------------------------------------------
 # MultiFileReader
 
+def _abbr(res):
+    if res[0] == 'ok' and isinstance(res[1], (str, bytes)) and len(res[1]) > 200:
+        return '(ok, <%d> %r...%r)' % (len(res[1]), res[1][:20], res[1][-20:])
+    return repr(res)
+
+
 def strat_mfr(tier):
     @st.composite
     def case(draw):
@@ -279,8 +301,17 @@ def strat_mfr(tier):
             st.tuples(st.just('readall')),
             st.tuples(st.just('seek0')),
         ).map(list), max_size=12))
-        return {'sub': 'mfr', 'kind': kind, 'members': members, 'forms': forms, 'reads': reads,
+        case = {'sub': 'mfr', 'kind': kind, 'members': members, 'forms': forms, 'reads': reads,
                 'mixed': draw(st.sampled_from([False] * 9 + [True]))}
+        if draw(st.integers(0, 24)) == 0:
+            # scale class: members of more than 1 MiB (the content pieces repeated) and reads of more than 1 MiB
+            MiB = 1 << 20
+            case['member_bytes'] = draw(st.lists(st.sampled_from([0, 0, MiB - 1, MiB + 1, 2 * MiB + 3, 3 * MiB]), min_size=len(members), max_size=len(members)))
+            case['reads'] = draw(st.lists(st.one_of(
+                st.tuples(st.just('read'), st.sampled_from([MiB, MiB + 1, 2 * MiB, 3 * MiB + 7, 5 * MiB, 10, 65536])),
+                st.tuples(st.just('readall')), st.tuples(st.just('seek0'))).map(list), min_size=1, max_size=6))
+            case['mixed'] = False
+        return case
     return case()
 
 
@@ -289,6 +320,10 @@ def run_mfr(case):
     kind = case['kind']
     conv = (lambda pieces: j2b(''.join(pieces))) if kind == 'bytes' else (lambda pieces: ''.join(pieces))
     contents = [conv(m) for m in case['members']]
+    if case.get('member_bytes'):
+        unit_default = conv(['a', 'b', '\n'])
+        contents = [(c or unit_default) * (nb // len(c or unit_default) + 1) if nb else c for c, nb in zip(contents, case['member_bytes'])]
+        out.label('members_over_1MiB')
     if kind == 'text':
         # real text files: avoid newline translation differences by never writing \r
         contents = [c.replace('\r', '') for c in contents]
@@ -328,7 +363,7 @@ def run_mfr(case):
             acc += len(c)
             bounds.append(acc)
         for step, op in enumerate(case['reads']):
-            where = 'step %d %r of reads %r over members %r' % (step, op, case['reads'], contents)
+            where = 'step %d %r of reads %r over members %s' % (step, op, case['reads'], ['<%d> %r...' % (len(c), c[:12]) if len(c) > 200 else repr(c) for c in contents])
             if op[0] == 'read':
                 n = max(1, op[1])
                 got = _call(mfr.read, n)
@@ -358,7 +393,7 @@ def run_mfr(case):
                 raise HarnessError('op %r' % (op,))
             if got != ('ok', exp):
                 return out.fail('c18.mfr.read' + ('.after-seek0' if seeked else ''),
-                                '%s: returned %r, concatenation gives %r' % (where, got, exp))
+                                '%s: returned %s, concatenation gives %s' % (where, _abbr(got), _abbr(('ok', exp))))
         # full drain: the rest, then nothing
         got = _call(mfr.read)
         if got != ('ok', whole[cur:]):
